@@ -25,7 +25,9 @@ import (
 	"github.com/tokenized/spynode/pkg/client"
 )
 
-const txTick = 1000 * time.Millisecond // one model clock tick
+// One model clock tick.  Time is advanced by shifting the stored timestamps, never by waiting; a tick of one hour (safe delay
+// 1.5 h) makes the real time a script takes (milliseconds, under load seconds) irrelevant for every comparison with the delay.
+const txTick = time.Hour
 
 type txNote struct {
 	K      string `json:"k"`
@@ -267,7 +269,7 @@ func (h *txH) mkBlock(b int, prev bitcoin.Hash32) *wire.MsgBlock {
 // boot starts a node process on the storage, synchronises it with the chain so far and leaves it in sync.
 func (h *txH) boot(first bool) {
 	ctx := vCtx()
-	h.n = NewNode(vConfig(h.start, 1500), h.store, txFetch{h}, txFetch{h})
+	h.n = NewNode(vConfig(h.start, 5400000), h.store, txFetch{h}, txFetch{h})
 	h.n.RegisterHandler(h.rec)
 	h.n.SubscribePushDatas(ctx, [][]byte{h.key})
 	if err := h.n.load(ctx); err != nil {
